@@ -36,6 +36,8 @@ func init() {
 			{ID: "C03.R16", Text: "no wake-up an event waits for can be lost: a non-blocking send is only ever made on a channel that every make() creates with a buffer", Run: lossySignals},
 			{ID: "C03.R17", Text: "nothing stands between the observer and the consumer but the handlers themselves: no wrapper around the listener or the consumer that is not a proven pass-through (same rules as C20.R19 and C20.R20)", Run: func(c *Ctx, id string) { decoratorsTransparent()(c, id); noNewLayers(c, id) }},
 			{ID: "C03.R18", Text: "a persisted-sequence report is never ignored: the threshold is raised by every report, whatever the state of the stream request (same rule as C07.R3)", Run: c07r3},
+			{ID: "C03.R19", Text: "the catch-up filter, which drops events, is armed only by the completion of a rollback re-request, and the branch id is set only where a stream request was confirmed", Run: observerStateSetters},
+			{ID: "C03.R20", Text: "below 5.5.0 a stream that ends by itself does not wait for a close token: the token channel has one blocking send and one blocking receive, the receive under the ending flag (same rule as C18.R8)", Run: serialCloseTokens},
 			{ID: "C03.R6", Text: "the delivery switch is thrown only by the stream's close: observer.closed is written only by Observer.Close, which is called only from Stream.Close (a reopened stream reuses its observer)", Run: switchOwner},
 		},
 	})
